@@ -91,6 +91,9 @@ def mutations(rng, tok, key, wrap, enc, pool, pt):
         yield ("apv added", set_hdr(tok, "apv", "QQ"), key, False)
     for m in ("p2s", "iv", "tag"):
         if isinstance(hdr.get(m), str):
+            # longer than what the library itself generates: every byte of the value is bound, not a prefix
+            yield ("header %s extended" % m, set_hdr(tok, m, hdr[m] + "QUJDREVG"), key, False)
+            yield ("header %s extended by one byte" % m, set_hdr(tok, m, b64u(b64d(hdr[m]) + b"\x00")), key, False)
             for i in sorted({0, len(hdr[m]) - 1}):
                 yield ("header %s char %d" % (m, i), set_hdr(tok, m, flip_char(hdr[m], i)), key, False)
             yield ("header %s absent" % m, set_hdr(tok, m, None, delete=True), key, False)
@@ -178,13 +181,44 @@ def run(ctx):
             elif expect is False:
                 d["_expect_fail"] = True
             dops.append(("jwe.dec", d))
+    # a named recipient binds the decryption to *that* recipient object, for single keys and for key sets alike:
+    # two-recipient objects, recipient i named together with the other recipient's key / a key set / a tampered copy
+    fresh = lambda n: {"kty": "oct", "k": b64u(rng.randbytes(n))}
+    two = []
+    for w, n in (("A128KW", 16), ("A256KW", 32), ("A192GCMKW", 24)):
+        k0, k1 = fresh(n), fresh(n)
+        two.append(("jwe.enc", {"jwe": {"protected": {"enc": "A128GCM"}, "unprotected": {"alg": w}}, "rcp": {}, "jwk": [k0, k1], "pt": b"named recipient".hex(),
+                                "rand": rng.randbytes(400).hex(), "_k": (k0, k1)}))
+    for (o, a), r in zip(two, ctx.real([(o, strip(a)) for o, a in two])):
+        if not (r.get("ok") and isinstance(r["jwe"].get("recipients"), list) and len(r["jwe"]["recipients"]) == 2):
+            ctx.pfails.append(("dec:setup", "two-recipient encryption refused", o, strip(a), r))
+            continue
+        tok = r["jwe"]
+        k0, k1 = a["_k"]
+        r0, r1 = tok["recipients"]
+        bad0 = dict(r0, encrypted_key=flip_char(r0["encrypted_key"], 3))
+        for shape, wrapk in (("single key", lambda k: k), ("key array", lambda k: [k]), ("key set", lambda k: {"keys": [k]}), ("set with a foreign key first", lambda k: {"keys": [fresh(16), k]})):
+            for why, rcp, key, ok in (("own recipient, own key", r0, k0, True), ("own recipient, own key", r1, k1, True),
+                                      ("recipient 0 named, key of recipient 1", r0, k1, False), ("recipient 1 named, key of recipient 0", r1, k0, False),
+                                      ("tampered copy of recipient 0 named, its key", bad0, k0, False)):
+                d = {"jwe": tok, "rcp": rcp, "jwk": wrapk(key), "rand": rng.randbytes(600).hex(), "_why": "%s, %s" % (why, shape)}
+                if ok:
+                    d["_pt"] = a["pt"]
+                else:
+                    d["_expect_fail"] = True
+                dops.append(("jwe.dec", d))
+                dops.append(("jwe.dec_jwk", dict(d)))
     # streaming decryption: last byte of the ciphertext changed => done must report failure
     for tok, a, side in base[:: (4 if quick else 1)]:
         cekop = ("jwe.dec_jwk", {"jwe": tok, "jwk": a["jwk"], "rand": "00" * 600})
         dops.append(cekop)
 
     def p(op, args, real):
-        if "crash" in real or op != "jwe.dec":
+        if "crash" in real:
+            return None
+        if op == "jwe.dec_jwk" and args.get("_expect_fail") and "v" in real:
+            return ("dec:unauthenticated", "a content key is handed out after: %s :: %s" % (args["_why"], json.dumps(strip(args))[:400]))
+        if op != "jwe.dec":
             return None
         if "_pt" in args and not (real.get("ok") and real.get("pt") == args["_pt"]):
             return ("dec:rejects-valid", "valid token refused or wrong plaintext (%s): %s" % (args["_why"], json.dumps(strip(args))[:300]))
